@@ -5,7 +5,7 @@
 From AB Require Import Prelude PySeq Repeated Fields RepeatedLib RepeatedProofs RepeatedLayout.
 
 Inductive rop :=
-| OSetInt (i : Z) | OSetSlice (s : slc) | ODel (ix : pyidx) | OInsert (i : Z) | OAppend | OExtend
+| OSetInt (i : Z) (same : bool) | OSetSlice (s : slc) | ODel (ix : pyidx) | OInsert (i : Z) | OAppend | OExtend
 | OPop (i : Z) | OClear | ODropMany (l : list Z)
 | FOpt (sd : side) (pivot : Z) (same has_value : bool) | FReq (same : bool).
 
@@ -62,7 +62,7 @@ Definition run_case (c : case) : st * list donor * res (list tok) :=
       match o with (s', dl, Ok _) => (s', dl, Ok []) | (s', dl, Err e) => (s', dl, Err e) end in
   let v0 := hd (mkdonor 0 [] 0 0) (c_vals c) in
   match c_op c with
-  | OSetInt i => lift (setitem_int s i v0)
+  | OSetInt i same => lift (setitem_int s i same v0)
   | OSetSlice sl => lift (setitem_slice (c_ph c) (c_seps c) (c_sepsb c) s sl (c_vals c) (c_fr c))
   | ODel ix => lift (delitem (c_ph c) (c_seps c) (c_sepsb c) s ix (c_fr c))
   | OInsert i => lift (insert (c_ph c) (c_seps c) (c_sepsb c) s i v0 (c_fr c))
